@@ -210,7 +210,9 @@ def run_leg_sharded(pid, leg, build_, binpath, seed, tier, outdir):
                 if begun:
                     last = begun[-1].split(" ", 2)
                     if last[1] not in ended:
-                        inflight = (int(last[1]), last[2] if len(last) > 2 else "")
+                        rest = last[2] if len(last) > 2 else ""
+                        cls, _, desc = rest.partition("\t")
+                        inflight = (int(last[1]), desc or cls, cls)
                 # partial report checkpoint
                 pr = out + ".partial"
                 if os.path.exists(pr):
@@ -225,7 +227,7 @@ def run_leg_sharded(pid, leg, build_, binpath, seed, tier, outdir):
             if partial is not None:
                 partial["_leg"], partial["_build"], partial["_cmd"] = leg["name"], "-".join(build_), " ".join(cmd)
                 reports.append(partial)
-            crashes.append({"case_index": inflight[0], "case": inflight[1], "rc": rc, "stderr": e[-800:], "cmd": " ".join(cmd), "build": "-".join(build_)})
+            crashes.append({"case_index": inflight[0], "case": inflight[1], "case_class": inflight[2], "rc": rc, "stderr": e[-800:], "cmd": " ".join(cmd), "build": "-".join(build_)})
             resume = inflight[0] + 1
             attempt += 1
             if attempt > 200:
@@ -244,7 +246,9 @@ def run_leg_sharded(pid, leg, build_, binpath, seed, tier, outdir):
 
 def crash_signature(c):
     err = c["stderr"]
-    if "memory allocation of" in err:
+    if "VERIF_CPU_BUDGET_EXCEEDED" in err:
+        cls = "cpu-budget-exceeded"
+    elif "memory allocation of" in err:
         cls = "allocation-failure-abort"
     elif "stack overflow" in err:
         cls = "stack-overflow"
@@ -290,7 +294,7 @@ def aggregate(pid, p, tier, seed, legs_results, t0, builds_used, extra=None):
                 violations.append((v["sig"], v["count"], v["what"],
                                    {"leg": lr.name, "build": rep.get("_build"), "cmd": rep.get("_cmd"), "case": v.get("replay")}))
         for c in lr.extra_violations:
-            sig = f"{pid}|process-died|{crash_signature(c)}|{c.get('case','')[:120]}"
+            sig = f"{pid}|process-died|{crash_signature(c)}|{c.get('case_class','')[:160]}"
             violations.append((sig, 1, f"worker process died ({crash_signature(c)}) while running case {c['case_index']}: {c['case'][:200]}",
                                {"leg": lr.name, "build": c["build"], "cmd": c["cmd"], "case": c}))
     # filter through known findings
